@@ -1,6 +1,6 @@
 (* C06 — the property theorems assembled from the lemma files (pieces preserved AND duration preserved). *)
 From Coq Require Import ZArith QArith List Bool Lia ZifyBool.
-Require Import QV.C06.Model QV.C06.Spec QV.C06.Proofs_base QV.C06.Proofs_struct QV.C06.Proofs_term QV.C06.Proofs_wave.
+Require Import QV.C06.Model QV.C06.Spec QV.C06.Proofs_base QV.C06.Proofs_struct QV.C06.Proofs_term QV.C06.Proofs_wave QV.C06.Proofs_post.
 Import ListNotations.
 Open Scope Z_scope.
 
@@ -123,6 +123,12 @@ Proof. intros. apply preserved_intro; eauto using merge_single_child_ok, merge_s
 
 Theorem cleanup_preserves : forall rm mg t t', tree_okb t = true -> cleanup rm mg t = Ok t' -> preserved t t'.
 Proof. intros rm mg t t' Hok H. destruct (cleanup_pieces _ _ _ _ Hok H). apply preserved_intro; auto. Qed.
+
+Theorem cleanup_postcondition : forall rm mg t t', cleanup rm mg t = Ok t' ->
+  (rm = true -> no_empty_below t' = true) /\ (mg = true -> mergeable t' = false).
+Proof.
+  intros rm mg t t' H. split; intros ->; [eapply cleanup_post|eapply cleanup_not_mergeable]; eauto.
+Qed.
 
 (* flatten_and_balance: for EVERY fuel a returned result plays the same pulse and has the requested shape ... *)
 Theorem flatten_preserves : forall fuel d t t', tree_okb t = true -> flatten_and_balance fuel d t = Ok t' ->
